@@ -38,8 +38,12 @@ VARIABLES pc,      \* "hist" | "probed" | "emitted"
           result   \* abstract result of the probe: <<kind, tolerance class used>>
 vars == <<pc, hist, eps, store, legal, probe, result>>
 
-Loaders == {"netlist", "die", "alloc", "stog", "legal"}   \* operations that load a design (set eps when unset)
-ReadsEps == {"netlist", "die", "alloc", "stog"}       \* operations whose answer involves the tolerances
+Loaders == {"netlist", "die", "alloc", "stog", "legal", "sliver"}   \* operations that load a design (set eps when unset)
+ReadsEps == {"netlist", "die", "alloc", "stog", "sliver"}       \* operations whose answer involves the tolerances
+\* "undef" is the public call Rectangle.undefine_epsilon(): the next loader derives the tolerances afresh.
+\* "sliver" is a probe only: a design whose rectangles overlap by an area within a factor 3 of its own area tolerance.
+\* Its verdict is decided by the tolerance in force, so it equals the fresh verdict only when the tolerance is unset
+\* at the probe (the probe then derives it from itself) -- e.g. after a history that ends with "undef".
 ReadsStore == {"encode"}
 ReadsLegal == {"legal"}
 
@@ -47,7 +51,8 @@ Init == pc = "hist" /\ hist = <<>> /\ eps = <<0, 0>> /\ store = 0 /\ legal = 0 /
 
 \* one operation of the history on an unrelated design of scale s
 Op(k, s) == /\ hist' = Append(hist, <<k, s>>)
-            /\ eps' = IF k \in Loaders /\ eps[1] = 0 THEN <<Len(hist) + 1, s>> ELSE eps
+            /\ eps' = IF k = "undef" THEN <<0, 0>>
+                      ELSE IF k \in Loaders /\ eps[1] = 0 THEN <<Len(hist) + 1, s>> ELSE eps
             /\ store' = IF k = "encode" THEN store + 1 ELSE store
             /\ legal' = IF k = "legal" THEN legal + 1 ELSE legal
 
@@ -65,6 +70,7 @@ HistStep == /\ pc = "hist" /\ Len(hist) < MAXH
 (***************************************************************************)
 TolClass(e, k) == IF k \notin ReadsEps THEN "n/a"
                   ELSE IF e[1] = 0 THEN "ok"                    \* the probe itself sets it
+                  ELSE IF k = "sliver" THEN "set_by_another_design"   \* outside the assumption: not judged
                   ELSE IF e[2] - MID >= -BAND /\ e[2] - MID <= BAND THEN "ok" ELSE "out_of_band"
 ResultOf(k, e, st, lg) == <<k, TolClass(e, k)>>
 Fresh(k) == ResultOf(k, <<0, 0>>, 0, 0)
@@ -87,11 +93,14 @@ Spec == Init /\ [][Next]_vars
 (***************************************************************************)
 (* Properties                                                              *)
 (***************************************************************************)
-NoLeak == pc = "probed" => result = Fresh(probe)
+\* (a sliver probe is inside the assumption only when the tolerance is unset when it runs)
+NoLeak == pc = "probed" /\ ~(probe = "sliver" /\ result[2] = "set_by_another_design") => result = Fresh(probe)
 \* the tolerance is set once and never changes afterwards
-EpsSetOnce == [][eps[1] # 0 => eps' = eps]_vars
+EpsSetOnce == [][eps[1] # 0 /\ (hist' = hist \/ hist'[Len(hist')][1] # "undef") => eps' = eps]_vars
+MaxOf(S) == CHOOSE x \in S : \A y \in S : y <= x
+LastUndef == IF \E i \in DOMAIN hist : hist[i][1] = "undef" THEN MaxOf({ i \in DOMAIN hist : hist[i][1] = "undef" }) ELSE 0
 EpsOwnerIsFirstLoader == eps[1] # 0 =>
-     /\ hist[eps[1]][1] \in Loaders
-     /\ \A i \in 1..(eps[1] - 1) : hist[i][1] \notin Loaders
+     /\ hist[eps[1]][1] \in Loaders /\ eps[1] > LastUndef
+     /\ \A i \in (LastUndef + 1)..(eps[1] - 1) : hist[i][1] \notin Loaders
 StoreMonotone == [][store' >= store /\ legal' >= legal]_vars
 =============================================================================
